@@ -1193,16 +1193,23 @@ impl NodeId {
         self.detach(arena);
 
         // use a preorder traversal to remove node.
+        // A node is freed when it is entered, and its links are cleared on the
+        // way: `first_child` when descending, the others when leaving.
         let mut cursor = Some(self);
         while let Some(id) = cursor {
-            arena.free_node(id);
-            let node = &arena[id];
-            cursor = node.first_child.or(node.next_sibling).or_else(|| {
-                id.ancestors(arena) // traverse ancestors upwards
-                    .skip(1) // skip the starting node itself
-                    .find(|n| arena[*n].next_sibling.is_some()) // first ancestor with a sibling
-                    .and_then(|n| arena[n].next_sibling) // the sibling is the new cursor
-            });
+            if !arena[id].is_removed() {
+                arena.free_node(id);
+            }
+            let node = &mut arena[id];
+            if let Some(first_child) = node.first_child.take() {
+                cursor = Some(first_child);
+                continue;
+            }
+            let next_sibling = node.next_sibling.take();
+            let parent = node.parent.take();
+            node.previous_sibling = None;
+            node.last_child = None;
+            cursor = next_sibling.or(parent);
         }
     }
 
